@@ -1,9 +1,35 @@
-import Fpdec.Lemmas.Dom
+import Fpdec.Lemmas.Text
 import Fpdec.Props.C11_Sites
 
-/-! # C11 — property theorems (under construction: see DESIGN.md section 6) -/
+/-!
+# C11 — Formatting with precision, width, fill, alignment and sign flags
+
+`display_spec`: for every Decimal of the domain, every thread rounding mode, every combination of fill, alignment, `+`, `0`,
+width and precision, and every build profile, `format!("{:…}", d)` is `Spec.displaySpec`: the canonical text of `d` rounded to
+`min(P, 18)` fractional digits under the mode (zero-extended when `P` exceeds d's digits; exactly that many digits after the
+point and no point for 0), sign taken from `d`, padded by std's rule.
+`Std.padIntegral` is std's documented padding rule: it is shared by model and spec and validated by the correspondence run
+(modelled, not verified).
+-/
 
 namespace Fpdec.Props.C11
 open Fpdec Fpdec.Model
+
+theorem display_spec (prof : Profile) (tm : Mode) (f : Std.FmtSpec) (d : Dec) (hd : Dom d) :
+    display prof tm f d = .ok (Spec.displaySpec tm f d.coeff d.nfrac) :=
+  Fpdec.display_spec prof tm f d hd
+
+/-- the digits after the point are exactly `min(P, 18)` (none and no point for 0) — read off the spec -/
+theorem displaySpec_unfold (tm : Mode) (f : Std.FmtSpec) (a : Int) (p : Nat) (P : Nat) (hP : f.prec = some P) :
+    Spec.displaySpec tm f a p =
+      Std.padIntegral f (decide (a ≥ 0))
+        (Spec.render ((if min P 18 ≥ p then a * 10 ^ (min P 18 - p) else Spec.specRound tm a (10 ^ (p - min P 18))).natAbs)
+          (min P 18)) := by
+  unfold Spec.displaySpec
+  simp [hP]
+
+/-! ### non-vacuity -/
+example : display Profile.dev .floor { prec := some 2 } ⟨-1234567, 3⟩ = .ok [45, 49, 50, 51, 52, 46, 53, 55] := by
+  decide   -- "-1234.57"
 
 end Fpdec.Props.C11
